@@ -216,9 +216,28 @@ def _observations(spec, dump):
 def check_model(spec, dump, ctx: Ctx, who: str):
     """Raises SIG_ORDER when a contested key shows the value of a file that is not the last one defining it."""
     cont = set(G.contested(spec["varfiles"], spec["varorder"]))
+    lay = G.layered(spec["varfiles"], spec["varorder"])
+    # every entry of every file is part of the layered user variables the experiment reports (contested or not)
+    for route in ROUTES:
+        d = dump.get(route)
+        if not d or d["outcome"] != "ok" or "user_variables" not in d:
+            continue
+        uv = d["user_variables"] or {}
+        for key, val in lay["global"].items():
+            if key not in (uv.get("global") or {}):
+                raise Violation("variable-file-entry-lost", "%s: %s.get_user_variables() has no global %r (files %s "
+                                "layered to %s, reported %s)" % (who, route, key, [spec["varfiles"][i]["name"] for i in
+                                                                 spec["varorder"]], lay, uv))
+        for st_, kv in lay["stages"].items():
+            got = {str(k): v for k, v in (uv.get("stages") or {}).items()}.get(str(st_)) or {}
+            for key in kv:
+                if key not in got:
+                    raise Violation("variable-file-entry-lost", "%s: %s.get_user_variables() has no %r for stage %s "
+                                    "(files %s layered to %s, reported %s)" % (
+                                        who, route, key, st_, [spec["varfiles"][i]["name"] for i in spec["varorder"]],
+                                        lay, uv))
     if not cont:
         return
-    lay = G.layered(spec["varfiles"], spec["varorder"])
     order_names = [spec["varfiles"][i]["name"] for i in spec["varorder"]]
     seen = set()
     for where, scope, key, value in _observations(spec, dump):
